@@ -400,6 +400,9 @@ func c10ExecNet(r *sim.Run, sc *c10Scenario) {
 					return
 				}
 				stdr.RemoteAddr = "203.0.113.9:40000"
+				if stdr.Body == nil {
+					stdr.Body = http.NoBody // as on a server-side request (a shrunk scenario may have a stream with no bytes)
+				}
 				req, err := httpprot.NewRequest(stdr)
 				if err != nil {
 					return
